@@ -551,10 +551,63 @@ def stamp_table(run: Run, model: PyModel, rid: str) -> None:
 
 
 def eq_fields(run: Run, model: PyModel, rid: str) -> None:
-    fi = model.func("zorg.domain.models._page.Note.__eq__")
-    cmp = sorted({n.left.attr for n in ast.walk(fi.node) if isinstance(n, ast.Compare) and isinstance(n.left, ast.Attribute) and isinstance(n.ops[0], ast.Eq)})
-    run.check(rid, "Note.__eq__ compares exactly body and todo_payload", cmp == ["body", "todo_payload"], "Note.__eq__", f"compares {cmp}",
-              f"Note equality compares {cmp}: edits to the text or todo state go unnoticed, or untouched notes look modified", file="src/zorg/domain/models/_page.py", node=fi.node)
+    """Note.__eq__ evaluated abstractly on pairs of notes that differ in exactly one field: equal iff body and todo_payload agree
+    (whatever the comparison is written as: `and` chain, tuple comparison, helper key function)."""
+    from .absint import Interp, Raised, State
+    from .absval import HObj, Opaque, Term
+
+    NOTE = "zorg.domain.models._page.Note"
+    fi = model.func(f"{NOTE}.__eq__")
+    ci = model.cls(NOTE)
+    fields = [k for k in ci.fields if not k.startswith("_")]
+    run.floor("Note fields", len(fields), 10)
+    I = Interp(model, max_states=2000)
+    nt = {m.member: m for m in I.B.enum_members(I, model.cls("zorg.domain.models._types.NoteType"))} if "zorg.domain.models._types.NoteType" in model.classes else {}
+    if not nt:
+        nt = {m.member: m for m in I.B.enum_members(I, model.cls(model.resolve_dotted("zorg.domain.models._page.NoteType") or "zorg.domain.types.NoteType"))}
+
+    def mk(st, **over):
+        def payload(prio, status):
+            return st.alloc(HObj("obj", cls="zorg.domain.models._page.TodoPayload", fields=dict(priority=prio, status=nt[status])))
+
+        base = dict(body="T1 some text", file_path=Opaque("vpath", "/Z/a.zo"), line_no=3, areas=st.alloc(HObj("list", items=["a"])), block=None, contexts=st.alloc(HObj("list")),
+                    create_date=Term("marker:D1", ()), links=st.alloc(HObj("list")), modify_date=Term("marker:D1", ()), people=st.alloc(HObj("list")), projects=st.alloc(HObj("list")),
+                    properties=st.alloc(HObj("dict", fields={"k": "v"})), todo_payload=payload("P2", "OPEN_TODO"), zid="240101#00")
+        for k, v in over.items():
+            base[k] = payload(*v) if k == "todo_payload" and isinstance(v, tuple) else (st.alloc(v) if isinstance(v, HObj) else v)
+        for k in fields:
+            base.setdefault(k, None)
+        return st.alloc(HObj("obj", cls=NOTE, fields=base))
+
+    cases = [("an identical note", {}, True), ("another text", dict(body="T1 other text"), False), ("another todo status", dict(todo_payload=("P2", "CLOSED_TODO")), False),
+             ("another priority", dict(todo_payload=("P1", "OPEN_TODO")), False), ("a plain note instead of a todo", dict(todo_payload=None), False),
+             ("another line", dict(line_no=9), True), ("another page", dict(file_path=Opaque("vpath", "/Z/b.zo")), True), ("another ZID field", dict(zid="240101#01"), True),
+             ("another modify date", dict(modify_date=Term("marker:D2", ())), True), ("another create date", dict(create_date=Term("marker:D2", ())), True),
+             ("other tags", dict(areas=HObj("list", items=["b"]), projects=HObj("list", items=["p"])), True), ("other properties", dict(properties=HObj("dict", fields={"k": "w"})), True)]
+    n = 0
+    for label, over, want in cases:
+        st = State()
+        a, b = mk(st), mk(st, **over)
+        try:
+            res = I.run_function(f"{NOTE}.__eq__", [a, b], st=st)
+        except Exception as e:  # noqa: BLE001
+            run.undecided(rid, "Note.__eq__", f"{label}: cannot interpret: {type(e).__name__}: {str(e)[:100]}")
+            continue
+        for v, s in res:
+            n += 1
+            if isinstance(v, Raised) or s.imprecise or not isinstance(v, bool):
+                run.undecided(rid, "Note.__eq__", f"{label}: " + (f"raises {v.exc}" if isinstance(v, Raised) else "; ".join(s.imprecise[:2]) or repr(v)))
+                continue
+            run.check(rid, f"Note equality against {label}: {want}", v is want, "Note.__eq__", f"{label}: {v}",
+                      f"a note compared with {label} is {'equal' if v else 'different'}: " + ("an edit to the text or todo state goes unnoticed (no stamp)" if v else "an untouched note looks modified (spurious stamp)"),
+                      file="src/zorg/domain/models/_page.py", node=fi.node)
+    st = State()
+    res = I.run_function(f"{NOTE}.__eq__", [mk(st), "T1 some text"], st=st)
+    for v, s in res:
+        n += 1
+        run.check(rid, "a note never equals a non-note", v is False and not s.imprecise, "Note.__eq__", f"note == str: {v}", "a note compares equal to (or raises on) an object that is not a note",
+                  file="src/zorg/domain/models/_page.py", node=fi.node)
+    run.floor("Note.__eq__ evaluations", n, 12)
 
 
 def clock_agreement(run: Run, model: PyModel, rid: str) -> None:
